@@ -472,6 +472,10 @@ func followUps(c *core.Ctx, e *entry, input []byte, val any) {
 	budget := int64(20000000) + 5000*int64(min(len(input), compareUpTo)) + 100*int64(len(input))
 	run := func(stage string, fn func()) bool {
 		simrt.Progress.Add(1)
+		if os.Getenv("VERIF_DEBUG_STEPS") != "" {
+			s0 := simrt.Steps
+			defer func() { fmt.Fprintf(os.Stderr, "STEPS %s %d\n", stage, simrt.Steps-s0) }()
+		}
 		if len(input) > compareUpTo {
 			// On a large input the budget is only there to keep the simulation moving: a follow-up that
 			// is slow on half a megabyte (quadratic in the text, say) still terminates, and the property
@@ -548,6 +552,9 @@ func followUps(c *core.Ctx, e *entry, input []byte, val any) {
 		var gobBytes, jsonBytes []byte
 		if !run("followup:re-encode", func() {
 			gobBytes, _ = ap.GobEncode(it)
+			// (encoding/gob writes maps in the runtime's random order: canonical bytes, so that the twin
+			// – and the work of decoding and comparing it – is a function of the run)
+			gobBytes = gobcanon.Canon(gobBytes)
 			jsonBytes, _ = ap.MarshalJSON(it)
 		}) {
 			return
